@@ -3,9 +3,17 @@
 #include <etl/span.hpp>
 #include <etl/new.hpp>
 #define VF_E extern "C"
+// The family is lowered in three parts (family.json variants, -DVF_PART=n) to keep each translation unit small:
+//   0 span / array   1 extents   3 layout_left/right mappings   4 layout_stride mapping   2 mdspan over left/right   5 mdspan over stride
+//   6 layout_transpose / submdspan_extents
+#ifndef VF_PART
+#define VF_PART 0
+#endif
 namespace vf {
 using etl::size_t;
-inline constexpr auto dyn = etl::dynamic_extent;
+}
+#if VF_PART == 0
+namespace vf {
 
 // ------------------------------------------------------------------ span<int> / span<int,4>
 using SD = etl::span<int>;
@@ -82,8 +90,10 @@ VF_E int* a0_end(A0& a) { return a.end(); }
 VF_E size_t a0_size(A0 const& a) { return a.size(); }
 VF_E bool a0_empty(A0 const& a) { return a.empty(); }
 }
+#endif  // VF_PART == 0
 
 // ------------------------------------------------------------------ extents / layout mappings / mdspan over the patterns of patterns.def
+#if VF_PART >= 1
 #include <etl/mdspan.hpp>
 namespace vf {
 #if VF_IT == 1
@@ -108,10 +118,30 @@ template <typename M, size_t... Is> static auto call_map(M const& m, IT const* i
 template <typename M, size_t... Is> static auto call_at(M const& m, IT const* ix, etl::index_sequence<Is...>) -> int* { return &m(ix[Is]...); }
 template <typename M> static auto flags_of() -> unsigned { return unsigned(M::is_always_unique()) | unsigned(M::is_always_exhaustive()) << 1 | unsigned(M::is_always_strided()) << 2; }
 
+template <typename M> static auto stride_of(M const& m, size_t k) -> IT { if constexpr (M::extents_type::rank() > 0) { return m.stride(k); } else { (void)m; (void)k; return 0; } }
+// rank 0: clang-14 (the lowering front end) rejects layout_left/right::mapping<extents<I>>::operator()() ("invalid reference to function 'stride': constraints
+// not satisfied" inside the empty fold, layout_left.hpp:68 / layout_right.hpp:71; g++ accepts) -> the rank-0 call is not lowered for these two layouts
+template <typename M> static auto call_map_r(M const& m, IT const* ix) -> IT { if constexpr (M::extents_type::rank() > 0) { return call_map(m, ix, etl::make_index_sequence<M::extents_type::rank()>{}); } else { (void)m; (void)ix; return 0; } }
+// rank 0: mapping(extents, strides) is ill-formed (layout_stride.hpp:41 `array{...}` with an empty pack cannot deduce) -> default construction only
+template <typename M, typename E, typename S> static void ls_ctor(M* out, E const& e, S const& s) { if constexpr (E::rank() > 0) { new (out) M(e, s); } else { (void)e; (void)s; new (out) M(); } }
+
 #define VP(name, R, A, B, C, sfx)                                                                                      \
-    using E_##name  = mk<R, IT>::ext<A, B, C>;                                                                         \
-    using DE_##name = mk<R, IT>::dex;                                                                                  \
-    using OE_##name = mk<R, OT>::dex;                                                                                  \
+    using E_##name    = mk<R, IT>::ext<A, B, C>;                                                                       \
+    using DE_##name   = mk<R, IT>::dex;                                                                                \
+    using OE_##name   = mk<R, OT>::dex;                                                                                \
+    using M_ll##name  = etl::layout_left::mapping<E_##name>;                                                           \
+    using M_lr##name  = etl::layout_right::mapping<E_##name>;                                                          \
+    using M_ls##name  = etl::layout_stride::mapping<E_##name>;                                                         \
+    using DM_ll##name = etl::layout_left::mapping<DE_##name>;                                                          \
+    using DM_lr##name = etl::layout_right::mapping<DE_##name>;
+#include "patterns.def"
+#undef VP
+}
+#endif  // VF_PART >= 1
+
+#if VF_PART == 1
+namespace vf {
+#define VP(name, R, A, B, C, sfx)                                                                                      \
     VF_E size_t name##_rank() { return E_##name::rank(); }                                                             \
     VF_E size_t name##_rank_dynamic() { return E_##name::rank_dynamic(); }                                             \
     VF_E size_t name##_static_extent(size_t k) { return E_##name::static_extent(k); }                                  \
@@ -134,15 +164,13 @@ template <typename M> static auto flags_of() -> unsigned { return unsigned(M::is
     VF_E size_t name##_rev(E_##name const& e, size_t k) { return e.rev_prod_of_extents(k); }
 #include "patterns.def"
 #undef VP
+}
+#endif  // VF_PART == 1
 
+#if VF_PART == 3
+namespace vf {
 // ---- layout_left / layout_right mappings -----------------------------------------------------------------------------------------
-template <typename M> static auto stride_of(M const& m, size_t k) -> IT { if constexpr (M::extents_type::rank() > 0) { return m.stride(k); } else { (void)m; (void)k; return 0; } }
-// rank 0: clang-14 (the lowering front end) rejects layout_left/right::mapping<extents<I>>::operator()() ("invalid reference to function 'stride': constraints
-// not satisfied" inside the empty fold, layout_left.hpp:68 / layout_right.hpp:71; g++ accepts) -> the rank-0 call is not lowered for these two layouts
-template <typename M> static auto call_map_r(M const& m, IT const* ix) -> IT { if constexpr (M::extents_type::rank() > 0) { return call_map(m, ix, etl::make_index_sequence<M::extents_type::rank()>{}); } else { (void)m; (void)ix; return 0; } }
 #define VLAY(name, R, P, L)                                                                                            \
-    using M_##P##name  = etl::L::mapping<E_##name>;                                                                    \
-    using DM_##P##name = etl::L::mapping<DE_##name>;                                                                   \
     VF_E void name##_##P##_ctor_default(M_##P##name* out) { new (out) M_##P##name(); }                                 \
     VF_E void name##_##P##_ctor(M_##P##name* out, E_##name const& e) { new (out) M_##P##name(e); }                     \
     VF_E void name##_##P##_copy(M_##P##name* out, M_##P##name const& m) { new (out) M_##P##name(m); }                  \
@@ -163,12 +191,14 @@ template <typename M> static auto call_map_r(M const& m, IT const* ix) -> IT { i
     VF_E void name##_ll_from_lr(M_ll##name* out, M_lr##name const& o) { new (out) M_ll##name(o); } \
     VF_E void name##_lr_from_ll(M_lr##name* out, M_ll##name const& o) { new (out) M_lr##name(o); }
 VCONV(e) VCONV(e0) VCONV(e1) VCONV(e3) VCONV(ed)
+}
+#endif  // VF_PART == 3
+
+#if VF_PART == 4
+namespace vf {
 
 // ---- layout_stride mapping (required_span_size, is_exhaustive, operator== and the converting constructor are declared but not defined) ----
-// rank 0: mapping(extents, strides) is ill-formed (layout_stride.hpp:41 `array{...}` with an empty pack cannot deduce) -> default construction only
-template <typename M, typename E, typename S> static void ls_ctor(M* out, E const& e, S const& s) { if constexpr (E::rank() > 0) { new (out) M(e, s); } else { (void)e; (void)s; new (out) M(); } }
 #define VP(name, R, A, B, C, sfx)                                                                                      \
-    using M_ls##name = etl::layout_stride::mapping<E_##name>;                                                          \
     VF_E void name##_ls_ctor_default(M_ls##name* out) { new (out) M_ls##name(); }                                      \
     VF_E void name##_ls_ctor_arr(M_ls##name* out, E_##name const& e, IT const* s) { auto a = arr_of<R>(s); ls_ctor(out, e, a); } \
     VF_E void name##_ls_ctor_span(M_ls##name* out, E_##name const& e, IT const* s) { auto a = arr_of<R>(s); ls_ctor(out, e, etl::span<IT const, R>(a)); } \
@@ -180,3 +210,93 @@ template <typename M, typename E, typename S> static void ls_ctor(M* out, E cons
 #include "patterns.def"
 #undef VP
 }
+#endif  // VF_PART == 4
+
+#if VF_PART == 2 || VF_PART == 5 || VF_PART == 6
+#include <etl/linalg.hpp>
+#endif
+#if VF_PART == 2 || VF_PART == 5
+namespace vf {
+// ---- mdspan<int, E, layout> over layout_left / layout_right / layout_stride ----------------------------------------------------------
+// (rank 0 with layout_left/right: operator()() is not lowered, see call_map_r)
+template <typename M> static auto call_at_r(M const& m, IT const* ix) -> int* { if constexpr (M::rank() > 0 || etl::is_same_v<typename M::layout_type, etl::layout_stride>) { return call_at(m, ix, etl::make_index_sequence<M::rank()>{}); } else { (void)ix; return m.data_handle(); } }
+template <typename M> static auto at_arr_r(M const& m, IT const* ix) -> int* { if constexpr (M::rank() > 0 || etl::is_same_v<typename M::layout_type, etl::layout_stride>) { auto a = arr_of<M::rank()>(ix); return &m[a]; } else { (void)ix; return m.data_handle(); } }
+template <typename M> static auto at_span_r(M const& m, IT const* ix) -> int* { if constexpr (M::rank() > 0 || etl::is_same_v<typename M::layout_type, etl::layout_stride>) { auto a = arr_of<M::rank()>(ix); return &m[etl::span<IT const, M::rank()>(a)]; } else { (void)ix; return m.data_handle(); } }
+template <typename M> static auto md_stride(M const& m, size_t k) -> IT { if constexpr (M::rank() > 0) { return m.stride(k); } else { (void)m; (void)k; return 0; } }
+template <typename M> static auto md_flags(M const& m) -> unsigned {
+    unsigned f = unsigned(M::is_always_unique()) | unsigned(M::is_always_exhaustive()) << 1 | unsigned(M::is_always_strided()) << 2 | unsigned(m.is_unique()) << 3 | unsigned(m.is_strided()) << 5;
+    if constexpr (!etl::is_same_v<typename M::layout_type, etl::layout_stride>) { f |= unsigned(m.is_exhaustive()) << 4; }
+    return f;
+}
+#define VMD(name, R, P, L)                                                                                             \
+    using MD_##P##name = etl::mdspan<int, E_##name, etl::L>;                                                           \
+    VF_E void name##_m##P##_ctor_map(MD_##P##name* out, int* p, M_##P##name const& m) { new (out) MD_##P##name(p, m); } \
+    VF_E void name##_m##P##_copy(MD_##P##name* out, MD_##P##name const& m) { new (out) MD_##P##name(m); }              \
+    VF_E int* name##_m##P##_at(MD_##P##name const& m, IT const* ix) { return call_at_r(m, ix); }                       \
+    VF_E int* name##_m##P##_at_arr(MD_##P##name const& m, IT const* ix) { return at_arr_r(m, ix); }                    \
+    VF_E int* name##_m##P##_at_span(MD_##P##name const& m, IT const* ix) { return at_span_r(m, ix); }                  \
+    VF_E size_t name##_m##P##_size(MD_##P##name const& m) { return m.size(); }                                         \
+    VF_E bool name##_m##P##_empty(MD_##P##name const& m) { return m.empty(); }                                         \
+    VF_E IT name##_m##P##_extent(MD_##P##name const& m, size_t k) { return m.extent(k); }                              \
+    VF_E IT name##_m##P##_stride(MD_##P##name const& m, size_t k) { return md_stride(m, k); }                          \
+    VF_E int* name##_m##P##_data(MD_##P##name const& m) { return m.data_handle(); }                                    \
+    VF_E M_##P##name const* name##_m##P##_mapping(MD_##P##name const& m) { return &m.mapping(); }                      \
+    VF_E E_##name const* name##_m##P##_extents(MD_##P##name const& m) { return &m.extents(); }                         \
+    VF_E size_t name##_m##P##_rank(size_t* rd, size_t* se, size_t k) { *rd = MD_##P##name::rank_dynamic(); *se = k < R ? MD_##P##name::static_extent(k) : 0; return MD_##P##name::rank(); } \
+    VF_E unsigned name##_m##P##_flags(MD_##P##name const& m) { return md_flags(m); }
+#define VMDX(name, R, P, L)                                                                                            \
+    VF_E void name##_m##P##_ctor_ext(MD_##P##name* out, int* p, E_##name const& e) { new (out) MD_##P##name(p, e); }   \
+    VF_E void name##_m##P##_ctor_dyn(MD_##P##name* out, int* p, IT const* v) { ctor_ptr_pack(out, p, v, etl::make_index_sequence<E_##name::rank_dynamic()>{}); } \
+    VF_E void name##_m##P##_ctor_arr(MD_##P##name* out, int* p, IT const* v) { auto a = arr_of<E_##name::rank_dynamic()>(v); new (out) MD_##P##name(p, a); } \
+    VF_E void name##_m##P##_ctor_span(MD_##P##name* out, int* p, IT const* v) { auto a = arr_of<E_##name::rank_dynamic()>(v); new (out) MD_##P##name(p, etl::span<IT const, E_##name::rank_dynamic()>(a)); }
+#if VF_PART == 2
+#define VP(name, R, A, B, C, sfx) VMD(name, R, ll, layout_left) VMDX(name, R, ll, layout_left) VMD(name, R, lr, layout_right) VMDX(name, R, lr, layout_right)
+#else
+#define VP(name, R, A, B, C, sfx) VMD(name, R, ls, layout_stride)
+#endif
+#include "patterns.def"
+#undef VP
+}
+#endif  // VF_PART == 2 || VF_PART == 5
+
+#if VF_PART == 6
+namespace vf {
+// ---- linalg::layout_transpose<layout_left / layout_right>::mapping<E> for every rank-2 pattern ---------------------------------------
+// (is_always_contiguous()/is_contiguous() cannot be instantiated: the nested tetl mappings have no is_(always_)contiguous)
+#define VTR(name, tname, P, L)                                                                                         \
+    using T_##P##name = etl::linalg::layout_transpose<etl::L>::mapping<E_##name>;                                      \
+    VF_E void name##_t##P##_ctor(T_##P##name* out, M_##P##tname const& n) { new (out) T_##P##name(n); }                \
+    VF_E void name##_t##P##_extents(T_##P##name const& t, E_##name* out) { new (out) E_##name(t.extents()); }          \
+    VF_E void name##_t##P##_nested(T_##P##name const& t, M_##P##tname* out) { new (out) M_##P##tname(t.nested_mapping()); } \
+    VF_E size_t name##_t##P##_rss(T_##P##name const& t) { return size_t(t.required_span_size()); }                     \
+    VF_E size_t name##_t##P##_map(T_##P##name const& t, IT i, IT j) { return size_t(t(i, j)); }                        \
+    VF_E size_t name##_t##P##_stride(T_##P##name const& t, size_t r) { return size_t(t.stride(r)); }                   \
+    VF_E bool name##_t##P##_eq(T_##P##name const& a, T_##P##name const& b) { return a == b; }                          \
+    VF_E unsigned name##_t##P##_flags(T_##P##name const& t) { return unsigned(T_##P##name::is_always_unique()) | unsigned(T_##P##name::is_always_strided()) << 2 | unsigned(t.is_unique()) << 3 | unsigned(t.is_strided()) << 5; }
+#define VT(name, tname, A, B, sfx, tsfx) VTR(name, tname, ll, layout_left) VTR(name, tname, lr, layout_right)
+#include "transpose.def"
+#undef VT
+
+// ---- mdarray: NOT lowered.  clang-14 (the lowering front end) rejects the class template itself: the requires-clauses of the non-template constructors
+// use `array_or_constructible_from` (mdarray.hpp:28, a `static constexpr auto` variable template over `inline constexpr auto is_etl_array`):
+// "mdarray.hpp:75:76: error: value of type 'const auto' is not contextually convertible to 'bool'", ":81:18: atomic constraint must be of type 'bool'"
+// (g++ 12 accepts).  Any instantiation of etl::mdarray fails, so element access of mdarray is covered only through mdspan.
+
+// ---- submdspan_extents (submdspan itself is commented out in the library): full_extent and integer slices ------------------------------
+template <typename S> static auto sub_out(S const& s, size_t* se, IT* ext) -> size_t { for (size_t i = 0; i < S::rank(); ++i) { se[i] = S::static_extent(i); ext[i] = s.extent(i); } return S::rank(); }
+VF_E size_t sub_edd_ff(DE_edd const& e, size_t* se, IT* ext) { return sub_out(etl::submdspan_extents(e, etl::full_extent, etl::full_extent), se, ext); }
+VF_E size_t sub_edd_if(DE_edd const& e, IT i, size_t* se, IT* ext) { return sub_out(etl::submdspan_extents(e, i, etl::full_extent), se, ext); }
+VF_E size_t sub_edd_fi(DE_edd const& e, IT i, size_t* se, IT* ext) { return sub_out(etl::submdspan_extents(e, etl::full_extent, i), se, ext); }
+VF_E size_t sub_edd_ii(DE_edd const& e, IT i, size_t* se, IT* ext) { return sub_out(etl::submdspan_extents(e, i, i), se, ext); }
+VF_E size_t sub_e33_ff(E_e33 const& e, size_t* se, IT* ext) { return sub_out(etl::submdspan_extents(e, etl::full_extent, etl::full_extent), se, ext); }
+VF_E size_t sub_e31_ff(E_e31 const& e, size_t* se, IT* ext) { return sub_out(etl::submdspan_extents(e, etl::full_extent, etl::full_extent), se, ext); }
+VF_E size_t sub_e31_if(E_e31 const& e, IT i, size_t* se, IT* ext) { return sub_out(etl::submdspan_extents(e, i, etl::full_extent), se, ext); }
+VF_E size_t sub_e3d_ff(E_e3d const& e, size_t* se, IT* ext) { return sub_out(etl::submdspan_extents(e, etl::full_extent, etl::full_extent), se, ext); }
+VF_E size_t sub_e3d_if(E_e3d const& e, IT i, size_t* se, IT* ext) { return sub_out(etl::submdspan_extents(e, i, etl::full_extent), se, ext); }
+VF_E size_t sub_e3d_fi(E_e3d const& e, IT i, size_t* se, IT* ext) { return sub_out(etl::submdspan_extents(e, etl::full_extent, i), se, ext); }
+VF_E size_t sub_eddd_fff(DE_eddd const& e, size_t* se, IT* ext) { return sub_out(etl::submdspan_extents(e, etl::full_extent, etl::full_extent, etl::full_extent), se, ext); }
+VF_E size_t sub_eddd_fif(DE_eddd const& e, IT i, size_t* se, IT* ext) { return sub_out(etl::submdspan_extents(e, etl::full_extent, i, etl::full_extent), se, ext); }
+VF_E size_t sub_e3d1_fif(E_e3d1 const& e, IT i, size_t* se, IT* ext) { return sub_out(etl::submdspan_extents(e, etl::full_extent, i, etl::full_extent), se, ext); }
+VF_E size_t sub_e333_fff(E_e333 const& e, size_t* se, IT* ext) { return sub_out(etl::submdspan_extents(e, etl::full_extent, etl::full_extent, etl::full_extent), se, ext); }
+}
+#endif  // VF_PART == 6
